@@ -33,6 +33,9 @@ type cs struct {
 	// Gen, if set, names a large generated circuit instead of spelling it out in D:
 	// "chain:<OP>:<n>" (n gates of one kind in a chain over 2 inputs) or "mix:<n>" (the five kinds in turn)
 	Gen string `json:"gen,omitempty"`
+	// Chunk > 0: the randomness source returns at most Chunk bytes per Read (short reads); input permute bits are
+	// then whatever the stream gives
+	Chunk int `json:"chunk,omitempty"`
 }
 
 func genDesc(gen string) circgen.Desc {
@@ -65,8 +68,11 @@ func runCase(ctx *runner.Ctx, k cs, c *circuit.Circuit) {
 	if c == nil {
 		c = k.D.Build()
 	}
-	rd := drbg.New(k.Seed)
+	rd := drbg.NewChunked(k.Seed, k.Chunk)
 	rd.Hook = func(call int, p []byte) {
+		if k.Chunk > 0 {
+			return
+		}
 		// call 0 produces R, calls 1..nin the L0 of the input wires.
 		if call >= 1 && call <= nin && len(p) == 16 {
 			if k.SBits>>(call-1)&1 == 1 {
@@ -97,7 +103,7 @@ func runCase(ctx *runner.Ctx, k cs, c *circuit.Circuit) {
 	if k.Reuse {
 		g.Release()
 		g.Release()
-		rd2 := drbg.New(k.Seed + 1000)
+		rd2 := drbg.NewChunked(k.Seed+1000, k.Chunk)
 		rd2.Hook = rd.Hook
 		g, err = c.Garble(rd2, key)
 		if err != nil {
@@ -327,6 +333,12 @@ func families(ctx *runner.Ctx) {
 			for _, kl := range []int{16, 24, 32} {
 				for seed := uint64(0); seed < 2; seed++ {
 					runCase(ctx, cs{D: d, KeyLen: kl, Seed: uint64(ctx.Seed) + seed, SBits: sb, Input: -1, Reuse: seed == 1}, c)
+				}
+				if sb == 0 && kl == 16 {
+					// a randomness source that returns short reads
+					for _, ch := range []int{1, 5, 16, 17, 100} {
+						runCase(ctx, cs{D: d, KeyLen: kl, Seed: uint64(ctx.Seed) + uint64(ch), Input: -1, Chunk: ch}, c)
+					}
 				}
 			}
 		}
